@@ -130,7 +130,7 @@ def judge_any_order(pool, run_, rec, oracle, rec_noout=None):
 def run(ctx):
     rep = ctx.reporter(PROP, LEVEL)
     quick = ctx.tier == "quick"
-    n = int((1000 if quick else 25000) * ctx.scale)
+    n = int((3000 if quick else 40000) * ctx.scale)
     runs = [make_run(ctx.seed, i) for i in range(n)]
     stats = {"both_fail": 0, "ok": 0, "with_o": 0, "glob_ge3": 0, "glob_nonidentity_order": 0, "m_and_l_same_name": 0,
              "two_model_names": 0, "yaml": 0, "ini": 0, "lookup": 0, "duplicate_arg": 0, "same_pattern_twice": 0}
